@@ -6,6 +6,12 @@ Import ListNotations.
 
 Definition gate (s : str) : str := if smiles_valid s then s else [].
 
-(* Glycan.get_smiles: "" unless (tree_only or tree_full = full); the stored string has passed the gate *)
+(* Glycan.get_smiles: "" when a full conversion was requested (and not tree_only) but the tree is not fully
+   realisable; otherwise the stored string, which has passed the gate *)
 Definition get_smiles_model (tree_only tree_full full : bool) (merged : str) : str :=
-  if negb tree_only && negb (Bool.eqb tree_full full) then [] else gate merged.
+  if negb tree_only && full && negb tree_full then [] else gate merged.
+
+(* TreeWalker.full / Glycan.tree_full: the conjunction, accumulated with &=, of: every residue is known, every
+   modification is realised, every linkage is determined (no '?'), and the graph is connected *)
+Definition tree_full_model (residues_known groups_known edges_determined : list bool) (connected : bool) : bool :=
+  fold_left andb (residues_known ++ groups_known ++ edges_determined) true && connected.
